@@ -31,7 +31,7 @@ ASSUMPTIONS = [
     "an interface is attached to at most one link (as in every model the topology API builds)",
     "links carry no delegations (none of the shipped models has any)",
 ]
-BUDGET = {"quick": 2000, "thorough": 60000}
+BUDGET = {"quick": 2000, "thorough": 20000}
 MIN_LABEL_FRACTION = {"one-kind-node": 0.5, "ids>=2": 0.4, "pooled": 0.25, "multi-id-node": 0.2,
                       "no-one-kind-node": 0.08, "guids": 0.2, "two-sites": 0.25}
 
